@@ -209,7 +209,7 @@ class BudgetMeter(rf.Meter):
         self.call_limit = self.jump_limit = None
 
 
-async def inject(env: Env, frames, tx, burst=False):
+async def inject(env: Env, frames, tx, burst=False, phys=lambda data: 1):
     """Send hostile frames through `tx(bytes)`; meter the work until quiescence.
     frames: [(class, name, bytes)]. Returns False when a wedge was reported."""
     r = env.r
@@ -217,7 +217,8 @@ async def inject(env: Env, frames, tx, burst=False):
     for g in groups:
         m = env.meter
         c0, j0, t0 = m.calls, m.jumps, m.tripped
-        m.arm(len(g))
+        nphys = sum(max(1, phys(d)) for _k, _n, d in g)      # L2CAP frames actually sent
+        m.arm(nphys)
         hang = None
         try:
             for klass, name, data in g:
@@ -235,15 +236,17 @@ async def inject(env: Env, frames, tx, burst=False):
         calls, jumps = m.calls - c0, m.jumps - j0
         r.ev('metered_frames', len(g))
         r.ev('oracle_evals', 2)
-        env.max_calls = max(env.max_calls, calls // len(g))
-        env.max_jumps = max(env.max_jumps, jumps // len(g))
+        if calls // nphys > env.max_calls:
+            env.max_frame = (g[0][0], g[0][1], len(g[0][2]), len(g))
+        env.max_calls = max(env.max_calls, calls // nphys)
+        env.max_jumps = max(env.max_jumps, jumps // nphys)
         what = ', '.join(f'{k}<{n}>{d[:24].hex()}({len(d)}B)' for k, n, d in g[:10])
         if hang or asyncio.get_running_loop().livelock_jumps:
             env.bad(f'wedge/{env.chan}/livelock', f'no quiescence after {what}: {hang}; last exceptions {env.last_exceptions}')
             return False
-        if m.tripped > t0 or calls > CALL_BUDGET * len(g) or jumps > JUMP_BUDGET * len(g):
+        if m.tripped > t0 or calls > CALL_BUDGET * nphys or jumps > JUMP_BUDGET * nphys:
             env.bad(f'wedge/{env.chan}/step-budget-exceeded',
-                    f'{calls} calls / {jumps} loop iterations for {len(g)} frame(s): {what}')
+                    f'{calls} calls / {jumps} loop iterations for {nphys} frame(s): {what}')
             return False
         if env.fatal:
             kind = env.fatal[0].split(': ')[1]
@@ -660,6 +663,9 @@ class Driver:
 
     def keep(self, data: bytes) -> bool:
         return True
+
+    def phys(self, data: bytes) -> int:
+        return 1
 
     def gen(self, n: int):
         out = []
@@ -1132,6 +1138,9 @@ class HfpAgDriver(RfcommDriver):
                 yield ('trunc', base, b[:i])
         yield from rf.at_frames(r2, 'ag', 300)
 
+    def phys(self, data):
+        return (len(data) + 119) // 120
+
     def tx(self, data):
         # as many UIH frames as the negotiated frame size needs
         for i in range(0, max(1, len(data)), 120):
@@ -1156,9 +1165,20 @@ class HfpAgDriver(RfcommDriver):
         ag = self.env.ag
         stuck = bytes(ag.read_buffer[:60]) if ag is not None else b''
         if got is None and not rfs.rx:
+            symptom = 'no-answer-after-garbage'
+            if ag is not None and b'AT+CMEE=1\r' in ag.read_buffer:
+                # diagnosis only (names the key, does not decide): is the line at the head of the
+                # victim's buffer one its own parser rejects, or a parseable one left unread?
+                from bumble import hfp
+                head = bytes(ag.read_buffer).split(b'\r')[0]
+                try:
+                    hfp.AtCommand.parse_from(bytearray(head))
+                    symptom = 'lines-left-unread-after-handler-exception'
+                except Exception:
+                    symptom = 'unparseable-line-never-consumed'
             return self.channel_closed_by_victim() or [
-                ('no-answer-after-garbage', f'AT+CMEE=1 got no final result code; AG read_buffer starts with {stuck!r} '
-                                            f'({len(ag.read_buffer) if ag else 0} bytes)')]
+                (symptom, f'AT+CMEE=1 got no final result code; AG read_buffer starts with {stuck!r} '
+                          f'({len(ag.read_buffer) if ag else 0} bytes)')]
         return [('wrong-answer-after-garbage', f'AT+CMEE=1 answered {bytes(rfs.rx)!r}')]
 
     async def reference(self):
@@ -1216,6 +1236,9 @@ class HfpHfDriver(RfcommDriver):
                 yield ('trunc', base, b[:i])
         yield from rf.at_frames(r2, 'hf', 300)
 
+    def phys(self, data):
+        return (len(data) + 119) // 120
+
     def tx(self, data):
         for i in range(0, max(1, len(data)), 120):
             self.rfs.send_data(data[i:i + 120], credits=30)
@@ -1253,6 +1276,14 @@ class HfpHfDriver(RfcommDriver):
                         f'HF read_buffer={bytes(hf.read_buffer[:60])!r}'))
         elif got[1] != want:
             bad.append(('wrong-answer-after-garbage', f'+CIEV: 3,{want} reported as {got}'))
+        if bad and hf.read_buffer:
+            # diagnosis only (names the key): a complete <CR><LF>..<CR><LF> unit still in the buffer was
+            # rejected by the parser and never consumed; otherwise the framing lost step with the stream
+            buf = bytes(hf.read_buffer)
+            h = buf.find(b'\r\n')
+            t = buf.find(b'\r\n', h + 2) if h >= 0 else -1
+            diag = 'unparseable-line-never-consumed' if (h >= 0 and t >= 0) else 'stray-delimiter-desynchronises-framing'
+            bad = [(diag, ' / '.join(d for _s, d in bad))]
         return bad
 
 
@@ -1293,13 +1324,15 @@ class AvctpDriver(ChannelDriver):
         self.label = (self.label + 1) & 0xF
         rx = self.rx()
         rx.clear()
+        stale = self.env.avrcp.receive_command_state
         self.tx(rf.avrcp_get_capabilities(self.label))
         got = await self.atk.until(lambda: next((p for p in rx if len(p) >= 3 and p[0] >> 4 == self.label and p[0] & 2), None))
         if got is None:
             p = self.env.avrcp
             return self.channel_closed_by_victim() or [
-                ('no-answer-after-garbage', f'AVRCP GetCapabilities(company) unanswered; received {[p.hex() for p in rx][:4]}; '
-                                            f'receive_command_state={p.receive_command_state}')]
+                ('command-dropped-after-unfinished-command' if stale is not None else 'no-answer-after-garbage',
+                 f'AVRCP GetCapabilities(company) unanswered; received {[p.hex() for p in rx][:4]}; '
+                 f'receive_command_state before the request={stale}')]
         body = got[3:]
         ok = (got[0] & 0x0F) == 0x02 and got[1:3] == rf.be16(rf.AVRCP_PID) and len(body) >= 13 and body[0] == 0x0C and \
             body[1] == 0x48 and body[2] == 0x00 and body[3:6] == rf.BT_SIG and body[6] == 0x10 and body[10] == 0x02 and \
@@ -1414,7 +1447,7 @@ async def run_case(case, r: R):
                 burst = rng.random() < 0.3
             k += 1
             await drv.before_round()
-            if not await inject(env, g, drv.tx, burst=burst):
+            if not await inject(env, g, drv.tx, burst=burst, phys=drv.phys):
                 break
             total += len(g)
             if not await after_round(env, drv, g):
@@ -1433,6 +1466,8 @@ async def run_case(case, r: R):
                     'Disconnection Complete (status 0) for the live handle left the connection in Device.connections')
         r.extra['max_calls_per_frame'] = 0   # summed by the parent; the list below carries the maxima
         r.add_extra_list('max_calls_per_frame_by_case', env.max_calls)
+        if env.max_calls > 50000:
+            r.add_extra_list('expensive_frames', f'{env.chan}: {env.max_calls} calls for {getattr(env, "max_frame", None)}')
         r.sample = {'chan': env.chan, 'mode': case['mode'], 'frames': total, 'rounds': k,
                     'max_calls_one_frame': env.max_calls, 'max_loop_iterations_one_frame': env.max_jumps,
                     'victim_exceptions': env.exc_ordinary, 'last_frame': (g[-1][0], g[-1][1], g[-1][2][:24].hex()) if k else None}
